@@ -32,6 +32,34 @@ type CfgOpts struct {
 	TightMax        bool
 	Dynamic         bool
 	QuotaPreemption bool
+	MixedCase       int // permille chance per configured queue of a name with a capital letter (the core stores names lower-cased)
+}
+
+// mixCase capitalises configured queue names without touching the generator's random stream: the decisions are derived
+// from the configuration text itself. Paths recorded in the meta data stay lower-case, as the core stores them.
+func mixCase(conf *configs.SchedulerConfig, yamlText string, permille int) bool {
+	h := uint64(1469598103934665603)
+	for i := 0; i < len(yamlText); i++ {
+		h = (h ^ uint64(yamlText[i])) * 1099511628211
+	}
+	r := NewRng(Mix(h, 77))
+	changed := false
+	var walk func(q *configs.QueueConfig, top bool)
+	walk = func(q *configs.QueueConfig, top bool) {
+		if !top && r.Chance(permille) && len(q.Name) > 0 {
+			q.Name = strings.ToUpper(q.Name[:1]) + q.Name[1:]
+			changed = true
+		}
+		for i := range q.Queues {
+			walk(&q.Queues[i], false)
+		}
+	}
+	for pi := range conf.Partitions {
+		for qi := range conf.Partitions[pi].Queues {
+			walk(&conf.Partitions[pi].Queues[qi], true)
+		}
+	}
+	return changed
 }
 
 var resTypes = []string{"memory", "vcore", "gpu"}
@@ -153,6 +181,13 @@ func GenConfig(r *Rng, o CfgOpts) *CfgMeta {
 			continue
 		}
 		m.YAML = string(b)
+		if o.MixedCase > 0 && mixCase(m.Conf, m.YAML, o.MixedCase) {
+			if b2, err := yaml.Marshal(m.Conf); err == nil {
+				if _, err := configs.LoadSchedulerConfigFromByteArray(b2); err == nil {
+					m.YAML = string(b2)
+				}
+			}
+		}
 		return m
 	}
 	// minimal fallback, always valid
